@@ -42,6 +42,7 @@ impl Vm {
     }
 
     /// compile only
+    #[allow(dead_code)]
     pub fn compiles(&mut self, src: &str) -> Result<(), String> {
         match self.vm.load(src).into_function() {
             Ok(_) => Ok(()),
